@@ -44,15 +44,17 @@ KINDS = ["generic", "block", "assembly", "core"]
 OPS = {
     "generic": ["add", "insert", "remove", "removeAll", "setChildren", "sort", "readd", "deepcopy", "pickle", "reject"],
     "block": ["add", "remove", "removeAll", "setChildren", "sort", "replaceBlock", "readd", "deepcopy", "pickle", "reject"],
-    "assembly": ["add", "insert", "remove", "removeAll", "setChildren", "sort", "reestablish", "replaceBlock", "readd",
+    "assembly": ["add", "insert", "remove", "removeAll", "setChildren", "sort", "reestablish", "adjust", "replaceBlock", "readd",
                  "deepcopy", "pickle", "reject"],
-    "core": ["add", "insert", "remove", "removeAll", "setChildren", "sort", "reestablish", "replaceBlock", "coreAdd",
+    "core": ["add", "insert", "remove", "removeAll", "setChildren", "sort", "reestablish", "adjust", "replaceBlock", "coreAdd",
              "coreRemove", "readd", "deepcopy", "pickle", "reject"],
 }
-STRUCTURAL = {"add", "insert", "remove", "removeAll", "setChildren", "replaceBlock", "coreAdd", "coreRemove", "readd"}
+STRUCTURAL = {"adjust", "add", "insert", "remove", "removeAll", "setChildren", "replaceBlock", "coreAdd", "coreRemove", "readd"}
 MAX_DEPTH = 4  # generic trees: deepest node is 4 levels below its root
 NODE_CAP = 170  # total objects tracked in one program
 FLAG_POOL = ["FUEL", "CLAD", "DUCT", "CONTROL", "INNER", "DRIVER", "SHIELD", "B"]
+BLOCK_TYPES = ["fuel", "plenum", "inner fuel", "reflector", "control", "driver fuel", "shield"]
+ASSEM_TYPES = ["fuel", "control", "inner fuel", "radial shield", "driver fuel"]
 GEN_TYPES = ["fuel", "clad", "duct", "control", "inner fuel", "driver fuel", "shield", "plain"]
 CORE_CELLS = [(0, 0), (1, 0), (0, 1), (-1, 1), (-1, 0), (0, -1), (1, -1), (2, 0), (1, 1), (0, 2), (-1, 2), (-2, 2),
               (-2, 1), (-2, 0), (-1, -1), (0, -2), (1, -2), (2, -2), (2, -1)]
@@ -342,13 +344,14 @@ class Interp:
 
     def make_block(self, n, geom):
         A = self.A
-        tname = ["fuel", "plenum", "reflector", "control", "shield"][n % 5]
+        # "inner fuel"/"driver fuel" carry a strict superset of the flags of "fuel" (exact vs inexact flag queries)
+        tname = BLOCK_TYPES[n % len(BLOCK_TYPES)]
         cls = A.blocks.HexBlock if geom == "hex" else A.blocks.CartesianBlock
         self.serial += 1
         o = cls("%s%d" % (tname, self.serial), height=5.0 + (n % 3))
         o.setType(tname)
         b = self.new_node(o, "B", geom)
-        for m in self._BLOCK_TEMPLATES[geom][(n // 5) % 5]:
+        for m in self._BLOCK_TEMPLATES[geom][(n // len(BLOCK_TYPES)) % 5]:
             c = self.make_component(m, b)
             o.add(c.obj)
             self.link(b, c)
@@ -357,15 +360,15 @@ class Interp:
     def make_assembly(self, n, geom):
         A = self.A
         cls = A.assemblies.HexAssembly if geom == "hex" else A.assemblies.CartesianAssembly
-        typ = ["fuel", "control", "radial shield"][n % 3]
+        typ = ASSEM_TYPES[n % len(ASSEM_TYPES)]
         o = cls(typ, assemNum=self.next_num)
         self.next_num += 1
-        nb = 1 + (n // 3) % 3
+        nb = 1 + (n // len(ASSEM_TYPES)) % 3
         o.spatialGrid = A.grids.AxialGrid.fromNCells(nb)
         o.spatialGrid.armiObject = o
         a = self.new_node(o, "A", geom)
         for i in range(nb):
-            b = self.make_block(n // 9 + 7 * i, geom)
+            b = self.make_block(n // 15 + 5 * i, geom)
             o.add(b.obj)
             self.link(a, b)
         return a
@@ -537,7 +540,10 @@ class Interp:
         if c is None:
             return False
         p = self.par(c)
-        p.obj.remove(c.obj)
+        if p.cls == "B" and r["f"]:
+            p.obj.remove(c.obj, recomputeAreaFractions=False)
+        else:
+            p.obj.remove(c.obj)
         self.unlink(c)
         return True
 
@@ -546,9 +552,67 @@ class Interp:
         p = self.pick(cands, r["t"])
         if p is None:
             return False
-        p.obj.removeAll()
+        if p.cls == "B" and r["f"]:
+            p.obj.removeAll(recomputeAreaFractions=False)
+        else:
+            p.obj.removeAll()
         for c in self.kids(p):
             self.unlink(c)
+        return True
+
+    def op_adjust(self, r):
+        """Assembly.adjustResolution(refA): blocks that line up with the reference are kept, a taller block is taken out
+        and replaced by deep copies of itself.  The reference is built so that every block is kept or split in 2 or 4
+        equal parts (binary fractions: the heights add up exactly)."""
+        A = self.A
+        a = self.pick([p for p in self.nodes if p.cls == "A" and p.children], r["t"])
+        if a is None:
+            return False
+        kids = self.kids(a)
+        plan, x = [], r["a"]
+        for _b in kids:
+            plan.append((1, 2, 1, 4)[x % 4])
+            x //= 4
+        extra = sum(k * (1 + len(self.subtree(b))) for b, k in zip(kids, plan)) + 1
+        if not self.room(extra):
+            return False
+        cls = A.assemblies.HexAssembly if a.geom == "hex" else A.assemblies.CartesianAssembly
+        bcls = A.blocks.HexBlock if a.geom == "hex" else A.blocks.CartesianBlock
+        ro = cls("reflector", assemNum=self.next_num)
+        self.next_num += 1
+        ro.spatialGrid = A.grids.AxialGrid.fromNCells(sum(plan))
+        ro.spatialGrid.armiObject = ro
+        ref = self.new_node(ro, "A", a.geom)
+        for b, k in zip(kids, plan):
+            for _ in range(k):
+                self.serial += 1
+                bo = bcls("ref%d" % self.serial, height=b.obj.getHeight() / k)
+                bo.setType("reflector")
+                ro.add(bo)
+                self.link(ref, self.new_node(bo, "B", a.geom))
+        a.obj.adjustResolution(ro)
+        for b in kids:
+            self.unlink(b)
+        got = list(a.obj)
+        if len(got) != sum(plan):
+            self.fail("adjust/block-count", "%r has %d blocks after adjustResolution, the reference has %d" % (a.obj, len(got), sum(plan)))
+            raise Stop()
+        self.pre_ids = set(self.by_id)
+        idx = 0
+        for b, k in zip(kids, plan):
+            if k == 1:
+                if got[idx] is not b.obj:
+                    self.fail("adjust/aligned-block-not-kept", "block %d of %r is %r, the aligned block %r should have been kept" % (idx, a.obj, got[idx], b.obj))
+                    raise Stop()
+                self.link(a, b)
+            else:
+                for j in range(k):
+                    m = self.adopt(b, got[idx + j], "adjustResolution", {}, check_name=False)
+                    self.link(a, m)
+                self.out.label("adjust:split")
+            idx += k
+        if self.out.violations:
+            raise Stop()
         return True
 
     def op_setChildren(self, r):
@@ -737,7 +801,7 @@ class Interp:
                 self.fail(SIG_EXCORE[4:], "%s of a Reactor: copy.excore.get(%r) is %r, expected its child %r"
                           % (how, key, got, want))
 
-    def adopt(self, n, o2, how, mapping):
+    def adopt(self, n, o2, how, mapping, check_name=True):
         """Walk the original (model) and the copy (armi) in parallel; register the copy in the model."""
         o = n.obj
         if type(o2) is not type(o):
@@ -751,7 +815,7 @@ class Interp:
             self.fail("copy/child-count-differs", "%s of %r has %d children, original %d" % (how, o, len(kids2), len(n.children)))
             raise Stop()
         renamed = how == "deepcopy" and n.cls in ("R", "K")  # Reactor/Core.__deepcopy__ append "-copy" on purpose
-        if o2.name != (o.name + "-copy" if renamed else o.name):
+        if check_name and o2.name != (o.name + "-copy" if renamed else o.name):
             self.fail("copy/name-differs", "%s of %r is named %r" % (how, o, o2.name))
         m = self.new_node(o2, n.cls, n.geom)
         m.copied = True
@@ -949,6 +1013,90 @@ class Interp:
         txt = "None" if spec is None else ("[%s]" % ", ".join(one(c) for c in spec) if isinstance(spec, list) else one(spec))
         return "%s, exact=%s" % (txt, exact)
 
+    def expect_one(self, call, items, sig, what):
+        """0 matches -> None, 1 -> the object, more -> ValueError (getComponent / getComponentByName)."""
+        try:
+            got = call()
+        except ValueError:
+            if len(items) <= 1:
+                raise
+            return
+        if len(items) > 1:
+            self.fail(sig, "%s: %d objects match but %r was returned instead of ValueError" % (what, len(items), got))
+        elif got is not (items[0].obj if items else None):
+            self.fail(sig, "%s gives %r, naive walk gives %r" % (what, got, [x.obj for x in items]))
+
+    def class_queries(self, n, mspec, aspec, exact, stext, tname, wantc):
+        """The flag/type filtering wrappers of Composite, Assembly and Core, against the same naive walk."""
+        A = self.A
+        o = n.obj
+        kids = self.kids(n)
+        flags = lambda x: ref_flags(A, x.obj)  # noqa: E731
+        wrap = lambda x: True if mspec is None else ref_has_flags(flags(x), mspec, exact)  # noqa: E731  (None = no filter)
+        loose = lambda x: ref_has_flags(flags(x), mspec, False)  # noqa: E731
+        # -- any composite: component wrappers
+        self.expect_one(lambda: o.getComponent(aspec, exact=exact, quiet=True), wantc, "query/getComponent", "getComponent(%s) of %r" % (stext, o))
+        got = o.getNumComponents(aspec, exact)
+        want = sum(int(c.obj.getDimension("mult")) for c in wantc)
+        if got != want:
+            self.fail("query/getNumComponents", "getNumComponents(%s) of %r is %r, the matching components %r have %r" % (stext, o, got, [c.obj for c in wantc], want))
+        if isinstance(mspec, list):
+            want = all(self.naive_components(n, cand, exact) for cand in mspec)
+            if bool(o.hasComponents(aspec, exact)) != want:
+                self.fail("query/hasComponents", "hasComponents(%s) of %r is %s" % (stext, o, not want))
+        allc = self.naive_components(n, None, False)
+        if o.getComponentNames() != {c.obj.name for c in allc}:
+            self.fail("query/getComponentNames", "getComponentNames() of %r is %r, components are %r" % (o, o.getComponentNames(), [c.obj for c in allc]))
+        circle = A.components.Circle
+        self.check_exact(o.getComponentsOfShape(circle), [c for c in allc if isinstance(c.obj, circle)], "query/getComponentsOfShape", "getComponentsOfShape(Circle) of %r" % (o,))
+        if allc:
+            cname = allc[len(stext) % len(allc)].obj.name
+            self.expect_one(lambda: o.getComponentByName(cname), [c for c in allc if c.obj.name == cname], "query/getComponentByName", "getComponentByName(%r) of %r" % (cname, o))
+        bools = [loose(c) for c in kids]
+        if list(o.doChildrenHaveFlags(aspec)) != bools or bool(o.containsAtLeastOneChildWithFlags(aspec)) != any(bools) \
+                or bool(o.containsOnlyChildrenWithFlags(aspec)) != all(bools):
+            self.fail("query/childrenHaveFlags", "doChildrenHaveFlags/containsAtLeastOne/containsOnly(%s) of %r disagree with the children's flags %r"
+                      % (stext, o, [sorted(flags(c)) for c in kids]))
+        self.gate()
+        if n.cls == "A":
+            want = [c for c in kids if wrap(c)]
+            self.check_exact(o.getBlocks(aspec, exact), want, "query/assembly-getBlocks", "Assembly.getBlocks(%s) of %r" % (stext, o))
+            self.check_exact(list(o.iterBlocks(aspec, exact)), want, "query/assembly-getBlocks", "Assembly.iterBlocks(%s) of %r" % (stext, o))
+            got = o.getFirstBlock(aspec, exact)
+            if got is not (want[0].obj if want else None):
+                self.fail("query/assembly-getFirstBlock", "Assembly.getFirstBlock(%s) of %r gives %r, naive walk %r" % (stext, o, got, [c.obj for c in want]))
+            self.check_exact([b for b, _z in o.getBlocksAndZ(aspec)], [c for c in kids if loose(c)], "query/assembly-getBlocksAndZ", "Assembly.getBlocksAndZ(%s) of %r" % (stext, o))
+            if o.countBlocksWithFlags(aspec) != sum(1 for c in kids if loose(c)):
+                self.fail("query/assembly-countBlocksWithFlags", "Assembly.countBlocksWithFlags(%s) of %r is %r" % (stext, o, o.countBlocksWithFlags(aspec)))
+            typed = [c for c in kids if c.obj.p.type == tname]
+            got = o.getFirstBlockByType(tname)
+            if got is not (typed[0].obj if typed else None):
+                self.fail("query/assembly-getFirstBlockByType", "getFirstBlockByType(%r) of %r gives %r" % (tname, o, got))
+        elif n.cls == "K":
+            blocks = self.naive_gen(n, 2)
+            self.check_exact(list(o.iterBlocks(aspec, exact)), [b for b in blocks if wrap(b)], "query/core-iterBlocks", "Core.iterBlocks(%s) of %r" % (stext, o))
+            hit = [b for b in blocks if ref_has_flags(flags(b), mspec, exact)]
+            got = o.getFirstBlock(aspec, exact)
+            if got is not (hit[0].obj if hit else None):
+                self.fail("query/core-getFirstBlock", "Core.getFirstBlock(%s) of %r gives %r, naive walk %r" % (stext, o, got, [b.obj for b in hit[:3]]))
+            # getAssemblies/getBlocks return the assemblies in location order: compared as sets, each once
+            got = o.getAssemblies(typeSpec=aspec, exact=exact)
+            want = [a for a in kids if wrap(a)]
+            if sorted(id(x) for x in got) != sorted(id(a.obj) for a in want):
+                self.fail("query/core-getAssemblies", "Core.getAssemblies(%s) of %r returned %r, children matching are %r" % (stext, o, got, [a.obj for a in want]))
+            got = o.getBlocks(aspec)
+            want = [b for b in blocks if loose(b)]
+            if sorted(id(x) for x in got) != sorted(id(b.obj) for b in want):
+                self.fail("query/core-getBlocks", "Core.getBlocks(%s) of %r returned %r, naive walk %r" % (stext, o, got, [b.obj for b in want]))
+            if mspec is not None:
+                hit = [a for a in kids if ref_has_flags(flags(a), mspec, exact)]
+                got = o.getFirstAssembly(aspec, exact)
+                if got is not (hit[0].obj if hit else None):
+                    self.fail("query/core-getFirstAssembly", "Core.getFirstAssembly(%s) of %r gives %r, naive walk %r" % (stext, o, got, [a.obj for a in hit[:3]]))
+            want = max([sum(1 for b in self.kids(a) if loose(b)) for a in kids] or [0])
+            if o.countBlocksWithFlags(aspec) != want:
+                self.fail("query/core-countBlocksWithFlags", "Core.countBlocksWithFlags(%s) of %r is %r, expected %r" % (stext, o, o.countBlocksWithFlags(aspec), want))
+
     def queries(self, q):
         A = self.A
         n = self.nodes[q[0] % len(self.nodes)]
@@ -1026,6 +1174,8 @@ class Interp:
         wantc = self.naive_components(n, mspec, exact)
         self.check_exact(o.getComponents(aspec, exact), wantc, "query/getComponents", "getComponents(%s) of %r" % (stext, o))
         self.check_exact(list(o.iterComponents(aspec, exact)), wantc, "query/getComponents", "iterComponents(%s) of %r" % (stext, o))
+        self.gate()
+        self.class_queries(n, mspec, aspec, exact, stext, tname, wantc)
         self.gate()
         # -- ancestors
         chain = self.chain(n)
